@@ -10,7 +10,13 @@ every input free.
 Part (b), transmit encoding (TxLineHarness): with the real 4:1 usb_io : usb clock ratio, a UTMI producer hands 1..4 symbolic
 bytes to the PHY and an independent line monitor decodes D+/D- (SYNC, NRZI, bit-stuffing, LSB-first bytes, SE0-SE0-J) and
 compares every byte; tx_ready must strobe exactly once per byte.
-Part (c), receive decoding / clock-data recovery, is outside the claim (see OUTSIDE).
+Part (c), receive decoding / clock-data recovery (RxLineHarness): an independent reference encoder puts one packet (SYNC, NRZI,
+bit stuffing, SE0-SE0-J) on D+/D- with a symbolic start phase and at most one 3- or 5-cycle bit cell (+-0.25 % drift as the
+48 MHz sampler sees it); the UTMI monitor compares the delivered bytes, the rx_active framing and rx_error.  The solver cannot
+decide the full product bytes x phase x odd cell for this design (see rx_queries), so part (c) is decided in LAYERS: all
+2-byte packets with ideal timing; concrete stuffing-heavy packets with every start phase and an odd cell; stuffing violations.
+Finding (repaired by findings/C25_rx_error_cdc.patch): rx_error was a single 48 MHz strobe that the 12 MHz UTMI side sees in
+only one of four packet alignments.
 """
 from amaranth import *
 from amaranth.hdl.rec import Record
@@ -20,17 +26,43 @@ from ..engine import Query
 PROP = "C25"
 ENCODED = ["luna/gateware/interface/gateware_phy/phy.py: GatewarePHY (op-mode decoding, pull-up/pull-down, line state, clock strobe)",
            "luna/gateware/interface/gateware_phy/transmitter.py: TxPipeline, TxShifter, TxBitstuffer, TxNRZIEncoder",
-           "luna/gateware/interface/gateware_phy/receiver.py: RxPipeline (elaborated as part of the PHY; not asserted on)"]
+           "luna/gateware/interface/gateware_phy/receiver.py: RxPipeline, RxClockDataRecovery, RxNRZIDecoder, RxPacketDetect, "
+           "RxBitstuffRemover, RxShifter and the two AsyncFIFOBuffered crossings, observed at GatewarePHY rx_data / rx_valid / "
+           "rx_active / rx_error"]
 ASSUMPTIONS = [
     "transmit harness: op_mode = 0, full-speed transceiver select, the producer offers one packet of 1..4 bytes whose first byte "
     "is a PID (check nibble valid) and holds each byte until tx_ready; the usb clock ticks on every 4th usb_io edge with a "
     "fixed phase (phase 0 in quick, all four phases in thorough)",
     "control clauses: the usb (12 MHz) and usb_io (48 MHz) domains tick together in this harness (the asserted relations "
     "are combinational in the op-mode / pull-up inputs, so the clock ratio is irrelevant to them)",
+    "receive harness: the PHY is not transmitting (tx_valid = 0, op_mode = 0); usb ticks on every 4th usb_io edge; D+/D- change "
+    "synchronously to usb_io (no metastability, no SE1, no glitches, no jitter other than the one odd cell); ONE packet after "
+    "reset: idle J, first edge at usb_io step 6 + sphase (sphase = 0..3), SYNC KJKJKJKK, bytes LSB first, NRZI, a stuffed 0 after "
+    "six 1s counting the last SYNC bit, also after the last data bit, SE0 for two cells, J for the rest of the run; first byte "
+    "is a PID (high nibble = complement of low nibble); every cell lasts 4 usb_io cycles except at most one cell (any cell "
+    "from the first SYNC bit to the second SE0) that lasts 3 or 5: the effect of a +-0.25 % line clock offset on a packet of "
+    "< 100 bits as seen by a 48 MHz sampler (accumulated drift < 1 sample)",
+    "receive monitor: rx_* are observed at usb clock edges (UTMI is a 12 MHz interface); 'falls after EOP' is asserted as: at "
+    "most 24 usb_io cycles (6 bit times) after the J that ends EOP, rx_active has risen once and fallen once and exactly N "
+    "bytes were delivered; rx_error for a correct packet is asserted while rx_active only (rx_error strobes on an idle bus "
+    "on the unrepaired tree: the bit-stuff remover is never reset, its ResetInserter maps `sync` only); a stuffing "
+    "violation = one stuffed bit sent as a seventh 1 (no transition), must be seen as rx_error at a usb edge before the deadline",
 ]
 BOUNDS = "control: BMC from reset K=12 (single rate) and K=24 (4:1) with every PHY input free per cycle.  transmit: BMC K=226 " \
-         "usb_io steps from reset, all values of up to 4 bytes (so every run of ones, including a stuffed bit at a byte boundary)"
-OUTSIDE = "receive decoding and clock-data recovery under +-0.25 % drift (part c); packets longer than 4 bytes; tx_valid dropped mid-packet"
+         "usb_io steps from reset, all values of up to 4 bytes (so every run of ones, including a stuffed bit at a byte boundary).  " \
+         "receive: BMC K=150 usb_io steps from reset, N=2 bytes (PID + one data byte); layers: (1) ALL byte values, ideal cells, " \
+         "start phase 0 (quick; byte_value and byte_count) / phases 0..3 and every assertion (thorough); (2) packets C3 FF (stuffed " \
+         "bit inside) and D2 FC (stuffed bit after the last data bit), start phases 0..3, one 3- or 5-cycle cell at two chosen " \
+         "cells each (a transition-rich cell and a cell inside / at the end of the run of 1s, resp. the last 1 and the second " \
+         "SE0), thorough also C3 FF with the odd cell at ANY cell (symbolic index, best effort); (3) the same two packets with the stuffed bit sent as " \
+         "a seventh 1, phases 0..3; thorough also all 2-byte packets and any stuffed bit, phases 0..3 (best effort)"
+OUTSIDE = "transmit: packets longer than 4 bytes; tx_valid dropped mid-packet.  receive: the full product of all byte values x start " \
+          "phase x odd cell (only the layers listed in BOUNDS are decided; the unrestricted query did not finish one assertion in " \
+          "25 CPU minutes); packets longer than 2 bytes; several packets / inter-packet gaps (so a stale error level or FIFO " \
+          "residue from a previous packet is not examined); jitter, SE1, glitches and metastability on D+/D-; truly asynchronous " \
+          "usb / usb_io clocks; receive while the transmitter releases the bus; rx_error strobes on an idle bus (observed, not " \
+          "asserted); the unmapped ResetInserter(sync-only) wrappers in RxPipeline (resets of packet detector / bit-stuff remover " \
+          "never fire; unobservable for packets that start with a PID)"
 
 
 def make_io():
@@ -470,28 +502,64 @@ RX_COVERS = ["delivered", "stuffed_bit", "stuff_at_packet_end", "ff_byte", "shor
 
 
 def rx_queries(tier):
+    """Cost facts (measured, 4 jobs on a loaded machine): a query with EVERYTHING symbolic (bytes x start phase x odd cell) did
+    not decide one assertion in 25 CPU minutes: the recovered-clock control of the PHY depends on the data, nothing folds and
+    the CNF has 2.3 M clauses.  Symbolic bytes with concrete timing: ~220 s per assertion; concrete bytes with a symbolic odd
+    cell: ~150 s per assertion; everything concrete: ~1 s.  Hence the layers below."""
+    n = 2
+    K = RxLineHarness.depth(n)
+    f = lambda: RxLineHarness(n, False)
+    fb = lambda: RxLineHarness(n, True)
+    NONE = 63
     qs = []
-    for n in ([2] if tier == "quick" else [2, 3]):
-        K = RxLineHarness.depth(n)
-        f = (lambda n=n: RxLineHarness(n, False))
-        fb = (lambda n=n: RxLineHarness(n, True))
-        last = f"byte{n - 1}"
-        worst = {"byte0": 0xF0, "sphase": 3, "dlong": 1, "dcell": 3}
-        worst.update({f"byte{i}": 0xFF for i in range(1, n)})
-        hints = {"*": {"byte0": 0xC3}, "stuffed_bit": {"byte0": 0xC3, last: 0xFF}, "ff_byte": {"byte0": 0xC3, last: 0xFF},
-                 "stuff_at_packet_end": {"byte0": 0xC3, last: 0xFC}, "short_cell": {"byte0": 0xC3, "dlong": 0, "dcell": 12},
-                 "long_cell": {"byte0": 0xC3, "dlong": 1, "dcell": 12}, "deadline_worst_case": worst}
-        qs.append(Query(f"bmc_rx_n{n}", f, K, asserts=RX_ASSERTS, covers=RX_COVERS, hints=hints, timeout=2400, split=False,
-                        tactic="portfolio",
-                        desc=f"receive decoding: one packet of {n} symbolic bytes (PID first) from the reference encoder, every "
-                             "start phase, at most one 3- or 5-cycle bit cell anywhere in the packet"))
-        bworst = dict(worst, bad_stuff=1)
-        qs.append(Query(f"bmc_rx_badstuff_n{n}", fb, K, asserts=["stuff_error_reported"],
-                        covers=["stuff_error_reported", "deadline_worst_case"],
-                        hints={"stuff_error_reported": {"byte0": 0xC3, last: 0xFF, "bad_stuff": 0}, "deadline_worst_case": bworst},
-                        timeout=2400, split=False, tactic="portfolio",
-                        desc=f"bit-stuffing violation: one stuffed bit of a {n}-byte packet is sent as a seventh 1; rx_error must "
-                             "be seen at a usb clock edge before the delivery deadline"))
-        qs.append(Query(f"cosim_rx_n{n}", f, 0, kind="cosim", cosim_cycles=K))
-        qs.append(Query(f"cosim_rx_badstuff_n{n}", fb, 0, kind="cosim", cosim_cycles=K))
+    worst = {"byte0": 0xF0, "byte1": 0xFF, "sphase": 3, "dlong": 1, "dcell": 3}
+    # cover witnesses are fully scripted (an unguided witness search over bytes x timing takes minutes)
+    ideal = {"sphase": 0, "dlong": 0, "dcell": NONE}
+    hints = {"delivered": dict(ideal, byte0=0xC3, byte1=0x5A), "stuffed_bit": dict(ideal, byte0=0xC3, byte1=0xFF),
+             "ff_byte": dict(ideal, byte0=0xC3, byte1=0xFF, sphase=1), "stuff_at_packet_end": dict(ideal, byte0=0xD2, byte1=0xFC),
+             "short_cell": {"byte0": 0xC3, "byte1": 0xFF, "sphase": 2, "dlong": 0, "dcell": 19},
+             "long_cell": {"byte0": 0xC3, "byte1": 0xFF, "sphase": 3, "dlong": 1, "dcell": 19}, "deadline_worst_case": worst}
+    qs.append(Query("bmc_rx_covers", f, K, asserts=[], covers=RX_COVERS, hints=hints, timeout=900, split=False,
+                    desc="receive decoding, reachability twins (everything symbolic)"))
+    qs.append(Query("bmc_rx_badstuff_covers", fb, K, asserts=[], covers=["stuff_error_reported", "deadline_worst_case"],
+                    hints={"stuff_error_reported": dict(ideal, byte0=0xC3, byte1=0xFF, bad_stuff=0, sphase=1),
+                           "deadline_worst_case": dict(worst, bad_stuff=1)}, timeout=900, split=False,
+                    desc="bit-stuffing violation, reachability twins"))
+    qs.append(Query("cosim_rx", f, 0, kind="cosim", cosim_cycles=K))
+    qs.append(Query("cosim_rx_badstuff", fb, 0, kind="cosim", cosim_cycles=K))
+    # layer 1: every packet of a PID and one data byte, ideal 4-cycle cells, one start phase per query
+    HEAVY = ["byte_value", "byte_count", "delivered_by_deadline", "false_error"]     # ~200 s each; the others follow the same cone
+    for sp in ([0] if tier == "quick" else [0, 1, 2, 3]):
+        qs.append(Query(f"bmc_rx_data_sp{sp}", f, K, asserts=HEAVY[:2] if tier == "quick" else HEAVY,
+                        covers=[], layer={"sphase": sp, "dcell": NONE, "dlong": 0}, timeout=2400, tactic="portfolio",
+                        required=(sp == 0),
+                        desc=f"layer: ALL 2-byte packets (PID + data byte), start phase {sp}, every cell 4 cycles"))
+    # layer 2: concrete packets (stuffing in the packet / at its end), one 3- or 5-cycle cell: scripted cubes (cheap, both tiers)
+    pkts = {"c3ff": {"byte0": 0xC3, "byte1": 0xFF}, "d2fc": {"byte0": 0xD2, "byte1": 0xFC}}
+    for pn, cells in (("c3ff", [12, 19]), ("d2fc", [23, 26])):
+        for sp in range(4):
+            for dl in (0, 1):
+                for dc in cells:
+                    qs.append(Query(f"bmc_rx_drift_{pn}_sp{sp}_{'long' if dl else 'short'}{dc}", f, K, asserts=RX_ASSERTS,
+                                    covers=[], layer=dict(pkts[pn], sphase=sp, dlong=dl, dcell=dc), timeout=900, split=False,
+                                    desc=f"layer: packet {pn}, start phase {sp}, cell {dc} lasts {5 if dl else 3} cycles"))
+    if tier != "quick":
+        # ... and with the odd cell ANYWHERE (symbolic index; measured ~150 s per assertion); best effort
+        for sp in range(4):
+            for dl in (0, 1):
+                qs.append(Query(f"bmc_rx_drift_c3ff_sp{sp}_{'long' if dl else 'short'}_any", f, K,
+                                asserts=["byte_value", "delivered_by_deadline", "false_error"], covers=[],
+                                layer=dict(pkts["c3ff"], sphase=sp, dlong=dl), timeout=2400, tactic="portfolio", required=False,
+                                desc=f"layer: packet c3ff, start phase {sp}, ANY one cell lasts {5 if dl else 3} cycles"))
+    # layer 3: a stuffed bit replaced by a seventh 1 (in the packet / as its last bit)
+    for pn in pkts:
+        for sp in range(4):
+            qs.append(Query(f"bmc_rx_badstuff_{pn}_sp{sp}", fb, K, asserts=["stuff_error_reported"], covers=[],
+                            layer=dict(pkts[pn], sphase=sp, dlong=0, dcell=NONE, bad_stuff=0), timeout=900, split=False,
+                            desc=f"layer: packet {pn} with its first stuffed bit sent as a seventh 1, start phase {sp}"))
+    if tier != "quick":
+        for sp in range(4):
+            qs.append(Query(f"bmc_rx_badstuff_data_sp{sp}", fb, K, asserts=["stuff_error_reported"], covers=[],
+                            layer={"sphase": sp, "dlong": 0, "dcell": NONE}, timeout=2400, tactic="portfolio", required=False,
+                            desc=f"layer: ALL 2-byte packets, any stuffed bit sent as a seventh 1, start phase {sp}, 4-cycle cells"))
     return qs
